@@ -142,6 +142,7 @@ func cmdWorker(args []string) {
 	fs := flag.NewFlagSet("worker", flag.ExitOnError)
 	prop := fs.String("property", "", "")
 	hs := fs.String("harnesses", "", "")
+	idx := fs.Int("index", -1, "index of the harness entry in the check configuration")
 	tier := fs.String("tier", "quick", "")
 	out := fs.String("out", "", "")
 	verbose := fs.Int("v", 0, "")
@@ -166,8 +167,11 @@ func cmdWorker(args []string) {
 	}
 	var sel []*HarnessCfg
 	pkgSet := map[string]bool{}
-	for _, h := range c.Harnesses {
-		if want[h.Name] && inTier(h, *tier) {
+	for i, h := range c.Harnesses {
+		if *idx >= 0 && i != *idx {
+			continue
+		}
+		if (*idx >= 0 || want[h.Name]) && inTier(h, *tier) {
 			sel = append(sel, h)
 			pkgSet[h.Pkg] = true
 		}
@@ -239,9 +243,11 @@ func cmdCheck(args []string) int {
 		fatalf("no check configuration for property %q", *prop)
 	}
 	var sel []*HarnessCfg
-	for _, h := range c.Harnesses {
+	var selIdx []int
+	for i, h := range c.Harnesses {
 		if inTier(h, *tier) && (*only == "" || *only == h.Name) {
 			sel = append(sel, h)
+			selIdx = append(selIdx, i)
 		}
 	}
 	if len(sel) == 0 {
@@ -270,8 +276,8 @@ func cmdCheck(args []string) int {
 			defer wg.Done()
 			sem <- struct{}{}
 			defer func() { <-sem }()
-			of := filepath.Join(tmp, h.Name+".json")
-			cmd := exec.Command(self, "worker", "--property", *prop, "--harnesses", h.Name, "--tier", *tier, "--out", of,
+			of := filepath.Join(tmp, fmt.Sprintf("%s-%d.json", h.Name, i))
+			cmd := exec.Command(self, "worker", "--property", *prop, "--index", strconv.Itoa(selIdx[i]), "--tier", *tier, "--out", of,
 				"--v", strconv.Itoa(*verbose), "--seed", strconv.FormatInt(seed, 10), "--deadline", strconv.Itoa(deadline))
 			cmd.Stderr = os.Stderr
 			cmd.Env = goEnv()
